@@ -6,26 +6,33 @@ from contracts.precframe_conf import CONF
 repo=os.environ.get('PYVC_REPO','/repo')
 tot=0; need=0; res=[]
 t0=time.time()
-for path in PF.module_files(repo):
-    if '/libmp/' in path: continue
-    mod = os.path.relpath(path, os.path.join(repo,'mpmath'))[:-3].replace('/','.')
-    tree = ast.parse(open(path).read())
-    for q, fn, parents in PF.iter_functions(tree):
-        tot+=1
-        qual = mod+'.'+q
-        if len(sys.argv)>1 and not any(a in qual for a in sys.argv[1:]): continue
-        if not PF.writes_precision(fn, CONF['helpers']): continue
-        need+=1
-        if qual in CONF['setters']: continue
-        if parents and not PF.writes_precision(fn, CONF['helpers']): continue
-        if PF.decorated_with(fn, ('defun_wrapped',)): 
-            res.append((qual,'wrapped',None)); continue
-        r = PF.analyze_function(qual, fn, CONF)
-        res.append((qual, r['status'], r))
-        if r['status']!='proved':
-            print(r['status'], qual, 'L%d'%fn.lineno, r.get('reason',''), 'paths', r.get('paths'))
-            for o in r['obligations']:
-                if o['status']!='proved': print('     ', o['exit'], 'L%s'%o['line'], o.get('P_exit'), o['trace'][-6:]); break
+import threading
+threading.stack_size(512*1024*1024)
+def main():
+ global tot, need
+ for path in PF.module_files(repo):
+     if '/libmp/' in path: continue
+     mod = os.path.relpath(path, os.path.join(repo,'mpmath'))[:-3].replace('/','.')
+     tree = ast.parse(open(path).read())
+     for q, fn, parents in PF.iter_functions(tree):
+         tot+=1
+         qual = mod+'.'+q
+         if len(sys.argv)>1 and not any(a in qual for a in sys.argv[1:]): continue
+         if not PF.writes_precision(fn, CONF['helpers']): continue
+         need+=1
+         if qual in CONF['setters']: continue
+         if parents and not PF.writes_precision(fn, CONF['helpers']): continue
+         if fn.__class__.__name__!='Lambda' and fn.name in CONF['helpers']:
+             res.append((qual,'helper',None)); continue
+         if PF.decorated_with(fn, ('defun_wrapped',)): 
+             res.append((qual,'wrapped',None)); continue
+         r = PF.analyze_function(qual, fn, CONF)
+         res.append((qual, r['status'], r))
+         if r['status']!='proved':
+             print(r['status'], qual, 'L%d'%fn.lineno, r.get('reason',''), 'paths', r.get('paths'))
+             for o in r['obligations']:
+                 if o['status']!='proved': print('     ', o['exit'], 'L%s'%o['line'], o.get('P_exit'), o['trace'][-6:]); break
+th=threading.Thread(target=main); th.start(); th.join()
 print('functions', tot, 'touching precision', need, 'wall', round(time.time()-t0,1))
 import collections
 print(collections.Counter(s for _,s,_ in res))
